@@ -52,7 +52,7 @@ OPTSETS = [
 POOLED_SETS = (2, 7, 8, 10, 17)
 VARIANTS = ('sift', 'mask_sift', 'ensemble_sift', 'complete_ensemble_sift', 'second_sift', 'second_mask',
             'ensemble_sift:flip', 'complete_ensemble_sift:flip')
-ROUTES = ('kwargs', 'config', 'get_func', 'config-nested')
+ROUTES = ('kwargs', 'config', 'get_func', 'config-nested', 'get_func-reused')
 SIGNALS = [('tone', 64, 2, 'lin', 'none'), ('tone', 32, 3, 'none', 'am'), ('noise', 64, 0, 'none', 'none')]
 CAP = 3
 
@@ -273,6 +273,14 @@ def call_variant(v, x, o, route, nproc):
     cfg = S.get_config(v)
     for k_, val in extra.items():
         cfg[k_] = val
+    if route == 'get_func-reused':
+        # a configuration with a past: its callable was already built once, and every option group was written back
+        # as an equal-valued copy of itself, before the options are edited through key paths
+        import copy
+        cfg.get_func()
+        for name in ('imf_opts', 'envelope_opts', 'extrema_opts'):
+            cfg[name] = copy.deepcopy(cfg[name])
+        route = 'get_func'
     for name, d in (('imf_opts', io), ('envelope_opts', eo), ('extrema_opts', xo)):
         for k_, val in (d or {}).items():
             if route == 'config-nested':
